@@ -56,6 +56,21 @@ def main():
         finally:
             sh("git -C /repo worktree remove --force %s" % wt)
             shutil.rmtree(wt, ignore_errors=True)
+    if os.environ.get("SEEDED_NO_RESULTS"):      # (a partial run: the table is written by tools/seeded_results.py)
+        return
+    write_results(rows)
+
+
+def row_from_meta(sid):
+    meta = json.load(open(os.path.join(SEEDED, sid, "meta.json")))
+    prop = meta.get("property", sid.split("-")[0])
+    c = meta.get("confirmed", {})
+    sigs = meta.get("first_signatures", {})
+    return (sid, prop, str(c.get("tests_with_change", "")).split(",")[0], "%s/%s" % (c.get("demo_exit_clean"), c.get("demo_exit_with_change")),
+            ", ".join(meta.get("detected_by", [])) or "MISSED", "; ".join(sigs.get(prop, [])[:1]))
+
+
+def write_results(rows):
     with open(os.path.join(SEEDED, "RESULTS.md"), "w") as fh:
         fh.write("# Seeded property-breaking changes and what detects them\n\n"
                  "Each row: a change to hpcflow/valida that keeps the 266 pinned tests green and breaks the named property\n"
@@ -66,4 +81,9 @@ def main():
     print("wrote seeded/RESULTS.md (%d rows)" % len(rows))
 
 
-main()
+if __name__ == "__main__":
+    if "--table-only" in sys.argv:
+        ids = sorted(d for d in os.listdir(SEEDED) if os.path.isfile(os.path.join(SEEDED, d, "patch.diff")))
+        write_results([row_from_meta(i) for i in ids])
+    else:
+        main()
